@@ -456,16 +456,22 @@ def _month_names(ctx, rep, eng):
                             if g in leafy and g not in wrappers:
                                 group_month.setdefault(g, set()).add(mv.lo)
         bad = None
+        und = None
         for (num, w), hits in sorted(acc.items()):
             hits = [g for g in hits if g not in wrappers]
             vals = set()
             for g in hits:
                 vals |= group_month.get(g, set())
-            if vals != {num}:
+            if not vals and hits:
+                und = und or "no constant month found on the paths where group {} took part".format(hits[0])
+            elif vals != {num}:
                 bad = bad or "'{}' is accepted by groups {} which give month {} (expected {})".format(
                     w, hits, sorted(vals), num)
-        rep.add("month-names", rule_construct(rule, "month names"), rule.where, bad is None,
-                bad or "24 names")
+        if bad is None and und:
+            rep.undecided("month-names", rule_construct(rule, "month names"), rule.where, und)
+        else:
+            rep.add("month-names", rule_construct(rule, "month names"), rule.where, bad is None,
+                    bad or "24 names")
     rep.count("month_name_rules", n_rules, 2)
 
 
